@@ -40,6 +40,8 @@ R4c (K4) only unlock, force_break and force_break_corrupt rename self._held_dir 
    reached through force_break* only. (third-round seed)
 Added while testing against seeded changes: R5b break_lock hands force_break the holder info peeked before the prompt
 (no re-peek after the confirmation).
+Fourth round: holder-info-fresh-per-acquisition — _create_pending_dir writes info assigned from LockHeldInfo.for_this_process() inside the
+function (no cached self._*info) and sets self.nonce from that same info.
 Does not decide: interleavings, nor exclusivity of the transport's rename.
 """
 ASSUMPTIONS = ["transport.rename onto an existing non-empty directory fails (exclusive rename); the nonce re-read covers transports where it does not"]
@@ -277,6 +279,18 @@ def run(ctx):
     ctx.check("R6-user-guard", where, has_user, "guard: recorded user != our user -> not known dead", message="the user guard is missing")
     ctx.check("R6-pid-guard", where, has_pid, "guard: no pid recorded -> not known dead", message="the pid guard is missing")
     ctx.sample({"rust_guards": conds, "tail": tail})
+    # ---- fourth round: every acquisition writes holder info of its own (fresh nonce) ---------------------------------------
+    fcp = repo.func(LD, "LockDir._create_pending_dir")
+    wcp = f"{LD}:LockDir._create_pending_dir"
+    puts_ = [c for c in calls_in(fcp) if call_attr(c) in ("put_bytes_non_atomic", "put_bytes", "put_file", "put_file_non_atomic") and len(c.args) >= 2]
+    ctx.require(len(puts_) == 1, f"{wcp}: the write of the info file was not found")
+    written = puts_[0].args[1]
+    info_names = {n_.id for n_ in ast.walk(written) if isinstance(n_, ast.Name)}
+    srcs_ = [a.value for a in ast.walk(fcp) if isinstance(a, ast.Assign) and any(isinstance(t, ast.Name) and t.id in info_names for t in a.targets)] or [written]
+    fresh = all(isinstance(v_, ast.Call) and norm(v_.func).split(".")[-1] == "for_this_process" for v_ in srcs_) and not any(isinstance(n_, ast.Attribute) and isinstance(n_.value, ast.Name) and n_.value.id == "self" and n_.attr.startswith("_") and "info" in n_.attr for v_ in srcs_ + [written] for n_ in ast.walk(v_))
+    nonce_set = [a for a in ast.walk(fcp) if isinstance(a, ast.Assign) and any(norm(t) == "self.nonce" for t in a.targets)]
+    ok_nonce = len(nonce_set) == 1 and isinstance(nonce_set[0].value, ast.Attribute) and nonce_set[0].value.attr == "nonce" and isinstance(nonce_set[0].value.value, ast.Name) and nonce_set[0].value.value.id in info_names
+    ctx.check("holder-info-fresh-per-acquisition", wcp, fresh and ok_nonce, "the info written into the pending directory is built by LockHeldInfo.for_this_process() in this very attempt, and self.nonce is that info's nonce", construct="; ".join(norm(v_)[:60] for v_ in srcs_), message=f"_create_pending_dir writes holder info that is not built afresh for this attempt ({'; '.join(norm(v_)[:50] for v_ in srcs_)}): two holdings taken through one LockDir object carry the same nonce and start time, so force_break's comparisons before and after the rename cannot tell a later holding from the one that was examined — a stale break request removes the later holder's lock")
 
 
 def _branch_only_raises(g, t, label):
@@ -287,6 +301,7 @@ def _branch_only_raises(g, t, label):
 
 
 MUTANTS = [
+    Mutant("holder info built once per LockDir object", LD, "        info = LockHeldInfo.for_this_process(self.extra_holder_info)\n        self.nonce = info.nonce\n", "        if getattr(self, \"_cached_info\", None) is None:\n            self._cached_info = LockHeldInfo.for_this_process(self.extra_holder_info)\n        info = self._cached_info\n        self.nonce = info.nonce\n", expect="holder-info-fresh-per-acquisition"),
     Mutant("EPERM taken for a dead holder", "crates/osutils/src/lib.rs", "        Err(nix::Error::EPERM) => false, // Exists, though not ours.", "        Err(nix::Error::EPERM) => true, // pid recycled by somebody else", expect="R6-known-dead-only-when-absent"),
     Mutant("steal path moves the dead lock aside itself", LD, "                self.force_break(other_holder)\n                self._trace(\"stole lock from dead holder\")", "                self.transport.rename(self._held_dir, self.path + \"/stolen.tmp\")\n                self._trace(\"stole lock from dead holder\")", expect="R4c-who-moves-the-lock"),
     Mutant("contention handler marks the lock held", LD, "                self._trace(\"... contention, %s\", e)\n                other_holder = self.peek()", "                self._trace(\"... contention, %s\", e)\n                self._lock_held = True\n                other_holder = self.peek()", expect=["R1-held-after-rename", "R1-no-raise-after-held"]),
